@@ -50,6 +50,28 @@ pub fn spec_zigzag(n: i64) -> u64 {
     }
 }
 
+/// a BytesMut with exactly `spare` bytes of capacity left (the allocation state of a sink must not matter)
+fn nearly_full(spare: usize) -> BytesMut {
+    let mut b = BytesMut::with_capacity(64);
+    b.extend_from_slice(&vec![0xEE; b.capacity() - spare]);
+    b
+}
+fn spare_ok_u(x: u32, want: &[u8]) -> bool {
+    (0..=5).all(|s| {
+        let mut b = nearly_full(s);
+        let p = b.len();
+        b.write_var_u32(x);
+        b[p..] == *want
+    })
+}
+fn spare_ok_i(x: i32, want: &[u8]) -> bool {
+    (0..=5).all(|s| {
+        let mut b = nearly_full(s);
+        let p = b.len();
+        b.write_var_i32(x);
+        b[p..] == *want
+    })
+}
 fn enc_all_u(x: u32) -> [Vec<u8>; 4] {
     let mut a = Vec::new();
     a.write_var_u32(x);
@@ -179,7 +201,7 @@ fn in_context_i(pre: &[u8], enc: &[u8], suf: &[u8]) -> [Option<(i32, usize)>; 3]
 fn check_u(x: u32, want: &[u8], r: &mut Report, what: &str) -> bool {
     let res = guarded(|| {
         let e = enc_all_u(x);
-        let mut ok = e[0] == want && e[1] == want && e[2].len() == want.len() && e[3] == want;
+        let mut ok = e[0] == want && e[1] == want && e[2].len() == want.len() && e[3] == want && spare_ok_u(x, want);
         for d in dec_all_u(want) {
             ok &= d == Some((x, want.len()));
         }
@@ -206,7 +228,7 @@ fn check_u(x: u32, want: &[u8], r: &mut Report, what: &str) -> bool {
 fn check_i(x: i32, want: &[u8], r: &mut Report, what: &str) -> bool {
     let res = guarded(|| {
         let e = enc_all_i(x);
-        let mut ok = e[0] == want && e[1] == want && e[2].len() == want.len() && e[3] == want;
+        let mut ok = e[0] == want && e[1] == want && e[2].len() == want.len() && e[3] == want && spare_ok_i(x, want);
         for d in dec_all_i(want) {
             ok &= d == Some((x, want.len()));
         }
